@@ -7,6 +7,15 @@ Real code, three dense forms of one operator object:
 compared with each other (oracle: the property itself), and with the model (C-tie): Model/AsMatrix.v
 `x_as_matrix` (every override transcribed), `x_generic` (the loop with its jcounter) and Exec.mat.
 Linearity probes op(a*x+b*y) = a*op(x)+b*op(y) and op(x) = M @ flat(x) with small integers (exact).
+Call-style scope (implementation-side, `_call_styles`): the application itself is observed through BOTH `op(x)` (__call__,
+also the one installed on lineax's composed operators) and `op.mv(x)`, with x handed over as a pytree of jax arrays, of
+NumPy arrays and of Python scalars (0-d leaves), of the declared dtype and WIDER than declared (fractional floats on
+integer leaves, float32 beyond the float16 range on float16 leaves, complex on real leaves, float64 / complex128 under
+jax.enable_x64): every style must give as_matrix() @ flat(x) computed in NumPy double / complex double, and linearity
+must hold with the fractional / complex / large coefficients that produce the wide data.  Boundary: wider inputs are
+not judged where the unchanged code does not promote them - lazy transposes and lazy inverses (jax.linear_transpose /
+lineax.linear_solve raise on any dtype other than the declared one), complex data through the FFT methods of the
+Toeplitz class (real part; class annotated for real data) - and a style whose plain op.mv(jax pytree) raises.
 
 Operators: the shared alphabet (harness/alg_cases.py), products / sums / block operators / lazy duals
 built from it, and the layout scope: pytree structures with 1-3 leaves of shapes (2,),(3,),(2,2),(1,3),()
@@ -175,15 +184,19 @@ def user_classes():
             self._out = out_structure
 
         def mv(self, x):
-            xs = jax.tree.leaves(x)
-            dt = jnp.result_type(self.matrix.dtype, *[l.dtype for l in xs])
+            xs = [jnp.asarray(l) for l in jax.tree.leaves(x)]   # NumPy arrays and Python scalars are accepted
+            dx = jnp.result_type(*[l.dtype for l in xs])
+            dt = jnp.result_type(self.matrix.dtype, dx)
             v = jnp.concatenate([l.ravel().astype(dt) for l in xs])
             y = self.matrix.astype(dt) @ v
+            # data of the declared dtypes give the declared output dtypes; WIDER data (fractional on integer leaves,
+            # complex on real leaves, float64 on float32 leaves) promote the outputs: the map stays linear for every x
+            wider = any(jnp.result_type(d.dtype, l.dtype) != d.dtype for d, l in zip(jax.tree.leaves(self._in), xs))
             leaves, treedef = jax.tree.flatten(self._out)
             out, pos = [], 0
             for l in leaves:
                 n = int(np.prod(l.shape))
-                out.append(y[pos : pos + n].reshape(l.shape).astype(l.dtype))
+                out.append(y[pos : pos + n].reshape(l.shape).astype(jnp.result_type(l.dtype, dx) if wider else l.dtype))
                 pos += n
             return jax.tree.unflatten(treedef, out)
 
@@ -726,10 +739,11 @@ def decode_cols(v):
 
 class Check(PropertyCheck):
     id = 'C04'
-    props = ['Tables.v', 'C04.v', 'ExecFacts.v']
+    props = ['Tables.v', 'C04.v', 'ExecFacts.v', 'C04Exec.v']
     static_targets = ['theories/Model/Pinned.vo', 'theories/Lemmas/TablesL.vo', 'theories/Model/AsMatrix.vo',
-                      'theories/Lemmas/AsMatrixL.vo', 'theories/Lemmas/AsMatrixExecL.vo', 'theories/Lemmas/AsMatrixLoopL.vo', 'theories/Lemmas/ExecFactsL.vo']
-    coq_header = A.COQ_HEADER + 'From Furax Require Import Model.Wf Model.AsMatrix.\n'
+                      'theories/Lemmas/AsMatrixL.vo', 'theories/Lemmas/AsMatrixExecL.vo', 'theories/Lemmas/AsMatrixLoopL.vo', 'theories/Lemmas/ExecFactsL.vo',
+                      'theories/Lemmas/AsMatrixOvL.vo']
+    coq_header = A.COQ_HEADER + 'From Furax Require Import Model.Wf Model.AsMatrix.\nFrom Furax Require Import Lemmas.ExecFactsL Lemmas.AsMatrixOvL.\n'
     shard = 60
     workers = 8
     partial = (
@@ -740,7 +754,12 @@ class Check(PropertyCheck):
         'the named premises HON (C05 honesty: derivable via honesty_premise_from_C05) and the leaf-level premises HOV '
         '(n-d DiagonalOperator, Toeplitz, DiagonalInverse overrides: proved in the models of C11/C09), HRESH (ravel/reshape '
         '= eye), HINV/HSOLVE (jnp.linalg.inv returns an inverse; a lazy inverse solves its system): these enter as Section '
-        'hypotheses, validated by the correspondence on every case; lin_facts IS discharged for the executable semantics with any table (Props/ExecFacts.v: exec_lin_facts, exec_denote_linear; exec_apply_is_matvec under the decidable table_okb)'
+        'hypotheses in Props/C04.v; for the EXECUTABLE semantics they are discharged (Props/C04Exec.v, Lemmas/AsMatrixOvL.v: exec_override_eq_generic[_min], '
+        'exec_override_eq_generic_full[_min], exec_override_represents, x_minv_inverts / x_minv_complete for the modelled jnp.linalg.inv; HSOLVE not needed) under '
+        'the DECIDABLE hypotheses wfo, dtable_okb (implied by table_okb), otable_okb, which are evaluated by vm_compute on every compared case and must be true '
+        '(a False is a reported disagreement); two leaf-level facts remain run-time checks inside otable_okb rather than theorems about the array code: the 1-d '
+        'PDiag closed form diag(values) (and the measured n-d Diagonal / Toeplitz / DiagonalInverse overrides) equal the columns of the leaf, and ravel / reshape '
+        'leaves act as the identity on the flattened data (eye); lin_facts IS discharged for the executable semantics with any table (Props/ExecFacts.v: exec_lin_facts, exec_denote_linear; exec_apply_is_matvec under the decidable table_okb)'
     )
     trusted = [
         'translator tools/translate/tables.py (which definition of as_matrix - and of the other dunder / structure '
@@ -779,6 +798,14 @@ class Check(PropertyCheck):
         'diagonal, Toeplitz) with parameters wider than its data (complex values on a real structure, float values on an '
         'integer structure, hence also complex_scalar * real_operator) declares the narrow structure and its as_matrix '
         'casts to it - outside the domain by C05\'s params_not_wider guard (DESIGN 10.4), not judged here',
+        'call-style scope (dtypes and containers are not modelled): op(x) and op.mv(x) on jax / NumPy / Python-scalar leaves of '
+        'the declared and of wider dtypes (fractional on integer, float32 on float16, complex on real, float64 under '
+        'jax.enable_x64) are judged on the implementation against (matrix of op.mv(e_j)) @ flat(x) in NumPy double / complex '
+        'double, exactly (tolerance 1e-4 relative to the largest entry for the approximate classes); an exception of op(x) '
+        'where op.mv(x) returns a value is a failure, an exception of both is not judged (the style is outside the domain of '
+        'the class); wider inputs are not judged through lazy transposes / lazy inverses (jax.linear_transpose and '
+        'lineax.linear_solve raise on them) nor complex data through the FFT methods of the Toeplitz class (real part); the '
+        'harness\'s own user atom MixOperator promotes its outputs when its input is wider than declared',
         'configuration scope: the closed-form NumPy matrix of a symmetric band Toeplitz operator (T[i,j] = band[|i-j|], '
         'block diagonal over the leading axes), of einsum blocks (np.einsum) and of the user atoms is the reference of '
         'every evaluation method; FFT methods are compared within 1e-4 (float32 FFT), inputs being half-integers',
@@ -857,6 +884,14 @@ class Check(PropertyCheck):
         # 9. the complex scope: complex parameters on complex structures, every class under every wrapper
         out += self._complex_cases(rng, quick)
         self.stats['operands'] = len(names)
+        # 10. the call-style scope (op(x) / op.mv(x) x jax / NumPy / Python leaves x declared / wider dtypes): every case in
+        # the thorough tier; quick: the fixed cases of the dtype scope, half of the other dtype cases and of the alphabet,
+        # one case in 8 elsewhere
+        for c in out:
+            p = 1.0 if not quick else 0.5 if (c['kind'] == 'operand' or c['kind'].startswith('dtype-')) else 0.125
+            if c.get('styles') or rng.random() < p:
+                c['styles'] = True
+        self.stats['call_style_cases'] = sum(1 for c in out if c.get('styles'))
         return out
 
     # -- dtype scope -------------------------------------------------------------------------------
@@ -971,8 +1006,8 @@ class Check(PropertyCheck):
             if quick:
                 rest = [f for f in fam if not f[3]]
                 fam = [f for f in fam if f[3]] + rng.sample(rest, min(5, len(rest)))
-            for tag, let, e, _ in fam:
-                out.append({'kind': f'dtype-{tag}', 'dtypes': f'{pd} on {sd}', 'let': let, 'e': e})
+            for tag, let, e, core in fam:
+                out.append({'kind': f'dtype-{tag}', 'dtypes': f'{pd} on {sd}', 'let': let, 'e': e, **({'styles': True} if core else {})})
         return out
 
     # -- complex scope -----------------------------------------------------------------------------
@@ -1328,7 +1363,11 @@ class Check(PropertyCheck):
             'transposes) + 31 composites (lazy and class-defined transposes of products / sums / block row / column / diagonal '
             '/ nested blocks, composites of lazy transposes, lazy inverses under LU / GMRES / CG / BiCGStab) [quick: every '
             'leaf under the lazy transpose and under its own .T, every wrapper once + 8 sampled, 8 bare leaves, all '
-            'composites], each with a closed-form NumPy reference. Non-trivial: the class of the operator overrides '
+            'composites], each with a closed-form NumPy reference; the call-style scope: {op(x), op.mv(x)} x {jax arrays, NumPy '
+            'arrays, Python scalars on 0-d leaves} x {declared dtype, fractional on integer leaves, float32 beyond float16 on '
+            'float16 leaves, complex on real leaves, float64 / complex128 under x64} + linearity with the fractional / complex / '
+            'large coefficients through op(NumPy pytree), on every case [quick: the fixed cases of the dtype scope, half of the '
+            'other dtype cases and of the alphabet, one case in 8 elsewhere: ~230 cases, ~3000 judged applications]. Non-trivial: the class of the operator overrides '
             'as_matrix, the structure has several leaves, the output dtype is wider than the input dtype, or the operator '
             'carries an explicit configuration, or the data are complex.'
         )
@@ -1401,6 +1440,8 @@ class Check(PropertyCheck):
         # the property on the implementation (exact comparison unless the case is approximate)
         obs['forms'] = self._compare_forms(mats, approx)
         obs['lin'] = self._linearity(op, mats.get('mv'), approx)
+        if case.get('styles'):
+            obs['styles'], obs['styles_judged'], obs['styles_skipped'] = self._call_styles(op, mats.get('mv'), approx, self._style_exclusions(op))
         obs['ref'] = self._reference(case, mats, approx)
         if enc_error is not None and 'mv' in mats:
             raise enc_error
@@ -1508,16 +1549,176 @@ class Check(PropertyCheck):
                 bad.append(f'probe raised {type(ex).__name__}: {str(ex)[:150]}')
         return bad
 
+    # -- call styles: the way x is handed over ---------------------------------------------------------
+    # op(x) = as_matrix() @ flat(x) "for every x": through op(x) AND op.mv(x); x a pytree of jax arrays, of NumPy arrays,
+    # of Python scalars (0-d leaves); of the declared dtype and WIDER than declared.  A wider input is z = a x + b y with
+    # x (odd integers), y (even integers) of the declared dtype and coefficients (a, b) for which a cast of z to the
+    # declared dtype is visible at any tolerance:
+    #   fractional          integer leaves      -> float32    a, b = 1/2, -3/2            (z: half-integers; a cast truncates)
+    #   float32-on-float16  float16 leaves      -> float32    a, b = 2^17, 2^18           (a cast overflows to inf)
+    #   complex             every leaf          -> complex64  a, b = 1 + j/2, 2 - j       (Im z != 0; a cast drops it)
+    #   float64             every leaf          -> float64 / complex128, inside jax.enable_x64
+    #                                                         a, b = 2^130 (1 + 2^-30), 2^131 (a cast rounds and overflows)
+    # Python scalars carry no width (weak types): they are used for the declared, fractional and complex kinds only.
+    STYLE_KINDS = {
+        'declared': (2, -3, False), 'fractional': (0.5, -1.5, False), 'float32-on-float16': (2.0 ** 17, 2.0 ** 18, False),
+        'complex': (1 + 0.5j, 2 - 1j, False), 'float64': (2.0 ** 130 + 2.0 ** 100, 2.0 ** 131, True),
+    }
+
+    @staticmethod
+    def _style_dtypes(kind, dts):
+        """Leaf dtypes of z for a kind, None when the kind does not widen any leaf of the structure."""
+        isint = [np.issubdtype(d, np.integer) for d in dts]
+        iscx = [np.issubdtype(d, np.complexfloating) for d in dts]
+        if kind == 'declared':
+            return list(dts)
+        if kind == 'fractional':
+            return [np.dtype('float32') if i else d for i, d in zip(isint, dts)] if any(isint) else None
+        if kind == 'float32-on-float16':
+            return [np.dtype('float32') if d == np.float16 else d for d in dts] if any(d == np.float16 for d in dts) else None
+        if kind == 'complex':
+            return [np.dtype('complex64')] * len(dts) if not all(iscx) else None
+        if kind == 'float64':
+            return [np.dtype('complex128') if c else np.dtype('float64') for c in iscx]
+        raise ValueError(kind)
+
+    @staticmethod
+    def _style_exclusions(op):
+        """kind -> reason: wider inputs the unchanged classes inside op do not promote (documented boundary)."""
+        out = {}
+        for o in sub_operators(op):
+            n = type(o).__name__
+            if n == 'SymmetricBandToeplitzOperator' and o.method in TOEPLITZ_APPROX_METHODS:
+                out['complex'] = 'the FFT methods of the Toeplitz class return the real part (the class is annotated for real data)'
+            if n == 'MixOperator' and any(np.dtype(l.dtype) == np.float16 for l in A.J()['jax'].tree.leaves(o.out_structure())):
+                out['float32-on-float16'] = ("the harness's user atom casts to its DECLARED float16 outputs when its own input is not wider than declared "
+                                             '(inside a product): a rounding of data beyond the float16 range, not judged')
+            if n in ('TransposeOperator', 'InverseOperator'):
+                why = ('jax.linear_transpose' if n == 'TransposeOperator' else 'lineax.linear_solve') + ' accepts inputs of exactly the declared dtype only (raises otherwise)'
+                for kind in ('fractional', 'float32-on-float16', 'complex', 'float64'):
+                    out.setdefault(kind, why)
+        return out
+
+    def _call_styles(self, op, mv, approx, excluded):
+        """(failures, number of judged calls, skipped {reason: count})."""
+        import contextlib
+
+        j = A.J()
+        jax, jnp = j['jax'], j['jnp']
+        rs = np.random.RandomState(self.seed + 29)
+        leaves, treedef = jax.tree.flatten(op.in_structure())
+        bad, judged, skipped = [], 0, {}
+        if not leaves or mv is None:
+            return bad, judged, skipped
+        dts = [np.dtype(l.dtype) for l in leaves]
+        scalar_leaf = any(l.shape == () for l in leaves)
+
+        def skip(why):
+            skipped[why] = skipped.get(why, 0) + 1
+
+        def data(odd):
+            out = []
+            for l, d in zip(leaves, dts):
+                v = 2 * rs.randint(-2, 2, size=l.shape) + (1 if odd else 0)
+                if np.issubdtype(d, np.complexfloating):
+                    v = v + 1j * (2 * rs.randint(-2, 2, size=l.shape) + 1)
+                out.append(np.asarray(v).astype(d))
+            return out
+
+        def hand(arrs, container):
+            if container == 'jax':
+                ls = [jnp.asarray(a) for a in arrs]
+            elif container == 'numpy':
+                ls = [np.asarray(a) for a in arrs]
+            else:  # Python scalars on the 0-d leaves, NumPy arrays elsewhere
+                ls = [a.item() if a.shape == () else np.asarray(a) for a in arrs]
+            return jax.tree.unflatten(treedef, ls)
+
+        def apply(method, x):
+            return cflat(op(x) if method == 'call' else op.mv(x))
+
+        def close(got, want):
+            # approximate classes (FFT, solvers, trigonometry): the absolute tolerance follows the scale of the data (the
+            # wide kinds use data of magnitude 2^17 / 2^130); a cast to the declared dtype gives inf / drops Im / truncates
+            if got.shape != want.shape:
+                return False
+            if not approx:
+                return bool(np.array_equal(got, want))
+            fin = np.abs(want[np.isfinite(want)])
+            return bool(np.allclose(got, want, rtol=1e-4, atol=1e-4 * max(1.0, float(fin.max()) if fin.size else 1.0)))
+
+        xs, ys = data(True), data(False)
+        for kind, (a, b, x64) in self.STYLE_KINDS.items():
+            zd = self._style_dtypes(kind, dts)
+            if zd is None:
+                continue
+            if kind in excluded:
+                skip(f'{kind}: {excluded[kind]}')
+                continue
+            with (jax.enable_x64(True) if x64 else contextlib.nullcontext()):
+                wide = np.complex128 if (kind in ('complex',) or any(np.issubdtype(d, np.complexfloating) for d in zd)) else np.float64
+                zs = [(a * u.astype(wide) + b * v.astype(wide)).astype(d) for u, v, d in zip(xs, ys, zd)]
+                zflat = np.concatenate([z.ravel().astype(wide) for z in zs])
+                want = mv @ zflat
+                # the plain application of a jax pytree decides whether the kind is in the domain of the operator at all
+                try:
+                    base = apply('mv', hand(zs, 'jax'))
+                except Exception as ex:
+                    skip(f'{kind}: op.mv(jax arrays) raises {type(ex).__name__}')
+                    continue
+                if bicgstab_inside(op) and np.isnan(base).any():
+                    skip(f'{kind}: BiCGStab breakdown')
+                    continue
+                lin = None
+                for container in ('jax', 'numpy', 'python'):
+                    if container == 'python' and (not scalar_leaf or kind in ('float32-on-float16', 'float64')):
+                        continue
+                    got = {}
+                    for method in ('mv', 'call'):
+                        try:
+                            got[method] = base if (method, container) == ('mv', 'jax') else apply(method, hand(zs, container))
+                        except Exception as ex:
+                            if method == 'call' and 'mv' in got:
+                                bad.append(f'op(z) raises {type(ex).__name__}: {str(ex)[:120]} although op.mv(z) returns a value, for z given as {container} '
+                                           f'{kind} data {self._show(zflat)}')
+                            else:
+                                skip(f'{kind}: op.{method}({container}) raises {type(ex).__name__}')
+                            continue
+                        judged += 1
+                        if not close(got[method], want):
+                            name = 'op(z)' if method == 'call' else 'op.mv(z)'
+                            bad.append(f'{name} = {self._show(got[method])} but matrix @ flat(z) = {self._show(want)} for z = {self._show(zflat)} given as '
+                                       f'{container} leaves of dtypes {[str(d) for d in zd]} (declared {[str(d) for d in dts]})')
+                    if container == 'numpy' and 'call' in got:
+                        lin = got['call']
+                # linearity with the (fractional / complex / large) coefficients of the kind, through op(NumPy pytree)
+                if lin is not None and kind != 'declared':
+                    try:
+                        fx, fy = apply('call', hand(xs, 'numpy')), apply('call', hand(ys, 'numpy'))
+                    except Exception as ex:
+                        skip(f'{kind}: op(numpy declared) raises {type(ex).__name__}')
+                        continue
+                    judged += 1
+                    rhs = a * fx + b * fy     # (cflat gives double precision, complex when the operator widens to complex)
+                    if not close(lin, rhs):
+                        bad.append(f'op({a} x + {b} y) = {self._show(lin)} but {a} op(x) + {b} op(y) = {self._show(rhs)} for NumPy x={self._show(cflat(xs))} '
+                                   f'y={self._show(cflat(ys))} of the declared dtypes {[str(d) for d in dts]}')
+        return bad, judged, skipped
+
     # -- model -----------------------------------------------------------------------------------
     def model_term(self, case):
         if case.get('_unsupported') or '_term' not in case:
             return None
         t, tb, otb = case['_term'], case['_table'], case['_otable']
-        return f'(wfo {t}, show_mat (x_as_matrix {tb} {otb} {t}), show_mat (x_generic {tb} {t}), Exec.mat {tb} {t})'
+        # the last pair: the decidable hypotheses of Props/C04Exec.v exec_override_eq_generic_min, evaluated on the case
+        return (f'(let tb := {tb} in let otb := {otb} in let t := {t} in (wfo t, show_mat (x_as_matrix tb otb t), show_mat (x_generic tb t), '
+                f'Exec.mat tb t, (dtable_okb tb t, otable_okb tb otb t)))')
 
     def decode(self, case, v):
-        wf, over, gen, cols = v
-        return {'wf': wf, 'override': decode_mat(over), 'generic': decode_mat(gen), 'columns': decode_cols(cols)}
+        wf, over, gen, cols, (dok, ook) = v
+        # the hypotheses must hold on every well-formed operator (a False is a disagreement, reported with the case)
+        return {'wf': wf, 'override': decode_mat(over), 'generic': decode_mat(gen), 'columns': decode_cols(cols),
+                'hyps': [bool(dok), bool(ook)] if wf else None}
 
     def comparable(self, case, obs):
         if not isinstance(obs, dict) or 'build_error' in obs or 'harness_error' in obs:
@@ -1527,7 +1728,9 @@ class Check(PropertyCheck):
             cols = []
         # an operator object assembled through a non-validating constructor that cannot be applied at all is
         # outside the property's domain: the model must then call it ill-formed
-        return {'wf': obs.get('mv') is not None, 'override': obs.get('override'), 'generic': obs.get('generic'), 'columns': cols}
+        wf = obs.get('mv') is not None
+        return {'wf': wf, 'override': obs.get('override'), 'generic': obs.get('generic'), 'columns': cols,
+                'hyps': [True, True] if wf else None}
 
     def search_cases(self):
         """A bounded wider stream for the failing-input search (a thorough-tier sample)."""
@@ -1570,6 +1773,14 @@ class Check(PropertyCheck):
                             f'{obs["mv_dtype"]} (declared out_promoted_dtype {obs.get("out_dtype")})')
         if obs['lin']:
             return 'application is not the linear map of its matrix: ' + '; '.join(obs['lin'])[:1500]
+        if 'styles_judged' in obs:   # (the oracle sees every case once, in the main process: totals for the evidence)
+            st = self.stats.setdefault('call_styles', {'cases': 0, 'judged_calls': 0, 'not_judged': {}})
+            st['cases'] += 1
+            st['judged_calls'] += obs['styles_judged']
+            for k, v in (obs.get('styles_skipped') or {}).items():
+                st['not_judged'][k] = st['not_judged'].get(k, 0) + v
+        if obs.get('styles'):
+            return 'application depends on the way x is handed over (op(x) / op.mv(x); jax / NumPy / Python leaves; declared / wider dtype): ' + '; '.join(obs['styles'])[:1500]
         return None
 
 
